@@ -148,6 +148,15 @@ func (f *Frame) appendOp(x *ssa.Call, c *ssa.CallCommon, at string, st *State) *
 		vc.assume(at, implies(inplace, fmt.Sprintf("(forall ((%s Int)) (! (=> (or (< %s (+ (s_off %s) %s)) (>= %s (+ (s_off %s) %s))) (= (select %s %s) (select %s %s))) :pattern ((select %s %s))))",
 			j, j, s, n, j, s, total, inner, j, oldInner, j, inner, j)), "append: in place leaves the rest of the array alone")
 	}
+	{
+		// the same prefix fact in the indexed form that specifications use
+		// (r[k] == s[k] for k < len(s)); implied by the facts above, stated so that
+		// the trigger of "forall k :: { r[k] } ..." finds its instance
+		vc.ctr++
+		q := fmt.Sprintf("q!%d", vc.ctr)
+		vc.assume(at, fmt.Sprintf("(forall ((%[1]s Int)) (! (=> (and (<= 0 %[1]s) (< %[1]s %[2]s)) (= (select %[3]s (ix %[4]s %[1]s)) (select %[5]s (ix (s_off %[6]s) %[1]s)))) :pattern ((select %[3]s (ix %[4]s %[1]s)))))",
+			q, n, inner, rOff, oldInner, s), "append: prefix kept (indexed form)")
+	}
 	if isByteSlice(c.Args[0].Type()) {
 		var tview string
 		if tIsStr {
@@ -412,11 +421,18 @@ func (f *Frame) enterLoop(li *loopInfo, b *ssa.BasicBlock, preds []*ssa.BasicBlo
 	}
 	if spec != nil && spec.HasModifies && f.top {
 		li.preHeap, li.bound = cur.clone(), cur.alloc
+		// pre(x) for a loop-carried local x: its value when the loop was entered
+		li.entryNames = map[string]*specBinding{}
+		for _, phi := range phis {
+			if phi.Comment != "" && phi.Comment != "rangeindex" && entryVals[phi] != "" {
+				li.entryNames[phi.Comment] = &specBinding{V: vc.sv(entryVals[phi], phi.Type())}
+			}
+		}
 	}
 	// 2. invariant holds on entry
 	if spec != nil {
 		env := f.invEnv(f.loopNames(li, entryVals), cur)
-		env.loopPre, env.loopBound = li.preHeap, li.bound
+		env.loopPre, env.loopBound, env.loopEntryNames = li.preHeap, li.bound, li.entryNames
 		for i, cl := range spec.Invariants {
 			t, err := env.trBool(cl.Expr)
 			lab := cl.Label
@@ -447,7 +463,7 @@ func (f *Frame) enterLoop(li *loopInfo, b *ssa.BasicBlock, preds []*ssa.BasicBlo
 		// heap); every write inside the loop is checked against this frame, and
 		// the frame itself against the enclosing one
 		env := f.invEnv(f.loopNames(li, entryVals), cur)
-		env.loopPre, env.loopBound = li.preHeap, li.bound
+		env.loopPre, env.loopBound, env.loopEntryNames = li.preHeap, li.bound, li.entryNames
 		var locs []modLoc
 		for _, me := range spec.Modifies {
 			func() {
@@ -511,6 +527,15 @@ func (f *Frame) enterLoop(li *loopInfo, b *ssa.BasicBlock, preds []*ssa.BasicBlo
 		vc.assume("true", "(>= "+na+" "+preAlloc+")", "allocation is monotone")
 		for _, cn := range eff.list(vc) {
 			c := vc.S.comps[cn]
+			if preHeap != nil && allocOnly(c, frameLocs) {
+				// the loop has its own frame and lists no location of this component:
+				// every write to a location that exists at loop entry is checked against
+				// that frame, so the loop only allocates here. Locations beyond the
+				// frontier are unconstrained in the current heap already (type invariants
+				// are guarded by the frontier), so the heap need not change.
+				vc.heapTypeInv(c, vc.heapOf(cur, c), vc.curBlk, na)
+				continue
+			}
 			hn := vc.declare(c.Name+"_loop", c.Sort)
 			vc.heapTypeInv(c, hn, vc.curBlk, na)
 			if framed {
@@ -546,7 +571,7 @@ func (f *Frame) enterLoop(li *loopInfo, b *ssa.BasicBlock, preds []*ssa.BasicBlo
 	// 4. assume the invariant in the havocked state
 	if spec != nil {
 		env := f.invEnv(f.loopNames(li, hvals), cur)
-		env.loopPre, env.loopBound = li.preHeap, li.bound
+		env.loopPre, env.loopBound, env.loopEntryNames = li.preHeap, li.bound, li.entryNames
 		for _, cl := range spec.Invariants {
 			t, err := env.trBool(cl.Expr)
 			if err != nil {
@@ -611,7 +636,7 @@ func (f *Frame) checkLoopBack(li *loopInfo, from *ssa.BasicBlock, cond string, s
 		return
 	}
 	env := f.invEnv(f.loopNames(li, vals), st)
-	env.loopPre, env.loopBound = li.preHeap, li.bound
+	env.loopPre, env.loopBound, env.loopEntryNames = li.preHeap, li.bound, li.entryNames
 	for i, cl := range spec.Invariants {
 		t, err := env.trBool(cl.Expr)
 		if err != nil {
